@@ -100,6 +100,12 @@ pub trait Family: 'static + Sized {
     fn hb_must_any(_p: &Program<Self>, _log: &[Entry<Self::Res>]) -> Vec<(Vec<usize>, usize)> {
         Vec::new()
     }
+    /// C15: "reaches at least one of" edges: the source's clock must be dominated by the clock of
+    /// at least one of the targets (e.g. every release of a semaphore whose permits were all taken
+    /// again must be in the past of at least one of the acquisitions).
+    fn hb_must_reach(_p: &Program<Self>, _log: &[Entry<Self::Res>]) -> Vec<(usize, Vec<usize>)> {
+        Vec::new()
+    }
     /// C15: the shared objects an operation touches (any two operations on a common object may
     /// exchange causality).
     fn objects_of(_op: &Self::Op) -> Vec<u32> {
